@@ -18,9 +18,9 @@ CHECKS.update(EXTRA)
 hooks=json.load(open('/verif/tools/hooks.json'))
 m={
  "version":1,
- "setup_cmd":"cd /verif/harness && CARGO_NET_OFFLINE=true cargo build --offline --bin vcheck",
+ "setup_cmd":"cd /verif/harness && CARGO_NET_OFFLINE=true cargo build --offline --bins",
  "hooks":hooks,
- "engines":[{"name":"rvh","path":"harness","serves_properties":sorted(CHECKS.keys()),"kind_free_text":"Rust harness crate (bin vcheck): proptest TestRunner sharded over 16 threads, deterministic tokio simulation (paused clock, seeded select!, poll-deferral hook H1), harness-owned transport SimLink with wire tap/faults/delays, independent reference codec and reference peer, cancellation adapter, replay files, known-findings file"}],
+ "engines":[{"name":"rvh","path":"harness","serves_properties":sorted(CHECKS.keys()),"kind_free_text":"Rust harness crate (one binary per property): proptest TestRunner sharded over 16 threads, deterministic tokio simulation (paused clock, seeded select!, poll-deferral hook H1), harness-owned transport SimLink with wire tap/faults/delays, independent reference codec and reference peer, cancellation adapter, replay files, known-findings file"}],
  "checks":[],
  "notes":"Exit codes of ./check: 0 property held on everything explored, 1 violation (prints VIOLATION property=<id> replay=<path>), 2 inconclusive (build failure / watchdog). add_only=false: hook H1 adds remoc/src/exec/verif.rs and cfg-gated re-exports; the only edited existing line is the check-cfg list in remoc/Cargo.toml (appends 'cfg(remoc_verif)' so the guard-off build has no new warning). Genuine defects repaired by 'fix:' commits are listed in known_findings.json with status 'fixed'.",
  "not_applicable":[]
